@@ -1,6 +1,6 @@
 CONSTANTS
   NT = 2
-  NC = 2
+  Callers = {c1, c2}
   Cap1 = 1
   Cap2 = 2
   GCap = 2
@@ -10,6 +10,8 @@ CONSTANTS
   Bug = "none"
 INIT Init
 NEXT Next
+VIEW View
+SYMMETRY Sym
 INVARIANT TypeOK
 INVARIANT Capped
 INVARIANT GlobalWindowBound
